@@ -26,6 +26,11 @@ ASSUMPTIONS = ["contracts of WCSHelper.sky2pix_ellipse and "
                "fitting.elliptical_gaussian (units.py)"]
 
 MUTANTS = [
+    ("float32 cells no longer promoted", "AegeanTools/catalogs.py",
+     "                if isinstance(val, np.float32):\n"
+     "                    val = np.float64(val)",
+     "                if isinstance(val, float):\n"
+     "                    val = np.float64(val)", "C14-R7"),
     ("drop /3600", "AegeanTools/AeRes.py", "src.a/3600,", "src.a,",
      "C14-R1"),
     ("drop FWHM2CC", "AegeanTools/AeRes.py",
@@ -58,6 +63,11 @@ MUTANTS = [
      "C14-R6"),
 ]
 TWINS = [
+    ("every numpy float promoted", "AegeanTools/catalogs.py",
+     "                if isinstance(val, np.float32):\n"
+     "                    val = np.float64(val)",
+     "                if isinstance(val, np.floating):\n"
+     "                    val = np.float64(val)"),
     ("conversion via variable", "AegeanTools/AeRes.py",
      "src.a/3600,", "src.a / 3600.0,"),
     ("sigma precomputed", "AegeanTools/AeRes.py",
@@ -458,7 +468,59 @@ def run(ctx):
         ok = len(user) == len(canon) == 6 and all(
             defaults.get(u) == c for u, c in zip(user, canon)) and \
             len(set(canon)) == 6
+    r7_promotion(ctx, prog)
     ctx.check("C14-R6", ls, "rename pairs", ok,
               "user column k must be renamed to canonical name k (the "
               "default of the corresponding *_col parameter)",
               node=z[0] if z else ls.node)
+
+
+def r7_promotion(ctx, prog):
+    """catalogue cells read from single-precision columns (what Aegean's own
+    FITS tables contain) are promoted to double before they reach the
+    spherical geometry of sky2pix_ellipse"""
+    ctx.rule("C14-R7", "precision: table_to_source_list promotes "
+             "single-precision cells (numpy.float32 is NOT a python float) "
+             "to float64, so positions and sizes enter translate / "
+             "sky2pix_ellipse in double precision whatever the file format")
+    fi = prog.func("catalogs.table_to_source_list")
+    mod = prog.modules[fi.module]
+    F64 = ("numpy.float64", "float", "numpy.double")
+    conv = []
+    for st in ast.walk(fi.node):
+        if isinstance(st, ast.Assign) and isinstance(st.value, ast.Call) \
+                and len(st.value.args) == 1 \
+                and norm(st.targets[0]) == norm(st.value.args[0]):
+            d = prog.dotted(mod, st.value.func) if isinstance(
+                st.value.func, ast.Attribute) else (
+                    prog.resolve_name(mod, norm(st.value.func)) or
+                    norm(st.value.func))
+            if d in F64:
+                conv.append(st)
+    ctx.floor("C14-R7", len(conv), 1, "promotions to double in the table "
+              "reader")
+    WIDE = {"numpy.float32", "numpy.floating", "numpy.number",
+            "numpy.inexact", "numbers.Real", "numbers.Number"}
+    for st in conv:
+        guards = [i for i in ast.walk(fi.node) if isinstance(i, ast.If)
+                  and any(x is st for b in i.body for x in ast.walk(b))]
+        typed = []
+        for i in guards:
+            for c in ast.walk(i.test):
+                if isinstance(c, ast.Call) and norm(c.func) == "isinstance" \
+                        and len(c.args) == 2 \
+                        and norm(c.args[0]) == norm(st.targets[0]):
+                    ts = c.args[1].elts if isinstance(
+                        c.args[1], (ast.Tuple, ast.List)) else [c.args[1]]
+                    typed.append({prog.dotted(mod, t) if isinstance(
+                        t, ast.Attribute) else (prog.resolve_name(
+                            mod, norm(t)) or norm(t)) for t in ts})
+        ok = all(t & WIDE for t in typed)
+        ctx.check("C14-R7", fi, "promotion " + norm(st, 50) + " guarded by "
+                  + str([sorted(t) for t in typed]), ok,
+                  "the promotion to float64 does not apply to numpy.float32 "
+                  "cells (float32 is not a subclass of python float): values "
+                  "from single-precision columns stay float32, numpy 2 keeps "
+                  "the arithmetic of translate() in single precision and the "
+                  "model axes are off by up to a few per cent for compact "
+                  "sources", node=st)
